@@ -87,13 +87,26 @@ var enumMax = map[string]int{
 func (g *docGen) fill(v reflect.Value, name string, depth int) {
 	t := v.Type()
 	switch t {
+	// numbers are often a MEANINGFUL zero (a waived fee, an empty balance): an import must not read it as "unset"
 	case tUint:
+		if g.r.Chance(1, 6) {
+			v.Set(reflect.ValueOf(sdk.ZeroUint()))
+			return
+		}
 		v.Set(reflect.ValueOf(sdk.NewUintFromBigInt(g.r.Amount(110))))
 		return
 	case tInt:
+		if g.r.Chance(1, 6) {
+			v.Set(reflect.ValueOf(sdk.ZeroInt()))
+			return
+		}
 		v.Set(reflect.ValueOf(sdk.NewIntFromBigInt(g.r.Amount(100))))
 		return
 	case tDec:
+		if g.r.Chance(1, 4) {
+			v.Set(reflect.ValueOf(sdk.ZeroDec()))
+			return
+		}
 		v.Set(reflect.ValueOf(sdk.NewDecFromBigIntWithPrec(g.r.Amount(90), 18)))
 		return
 	case tCoin:
@@ -246,6 +259,9 @@ func (g *docGen) genSections() map[string]json.RawMessage {
 	g.fill(reflect.ValueOf(&mg).Elem(), "", 0)
 	for _, m := range mg.MtpList {
 		m.Position = margintypes.Position_LONG
+	}
+	if mg.Params.SqModifier.IsNil() || !mg.Params.SqModifier.IsPositive() { // margin SetParams refuses it: not a well-formed document
+		mg.Params.SqModifier = sdk.NewDec(int64(1 + g.r.Intn(1000000)))
 	}
 	mg.MtpList = uniqBy(mg.MtpList, func(m *margintypes.MTP) string { return fmt.Sprintf("%s|%d", m.Address, m.Id) })
 	out["margin"] = cdc.MustMarshalJSON(&mg)
